@@ -524,6 +524,10 @@ class C14(Check):
 
     def body(self):
         rng = self.rng
+        # the from-file initialiser itself: several calls on one functor object (as the realizations of a run make them),
+        # full tensors with unequal mirrored entries, scripted draws
+        from .props_b import init_functor_stage
+        init_functor_stage(self, "start-not-tensor-plus-noise", ["f"])
         cases, meta = [], {}
         n = 0
         maxK, maxL = (5, 4)
@@ -779,6 +783,11 @@ class C16(Check):
         n = 200 if self.tier == "quick" else 3000
         runs = {"m%d" % k: random_run(rng, variants=ALL_VARIANTS, ltwt=rng.choice([("u", "u"), ("u", "r"), ("u", "l"), ("i", "u"), ("s", "u")]),
                                       prior=rng.choice([0.0, 0.0, 3.0])) for k in range(n)}
+        for k, rc in enumerate(runs.values()):
+            # the containers a caller hands in are not always fresh: the in-membership one (never validated) in other
+            # shapes, some with exactly N*K elements; the label vector already filled; several realizations
+            if k % 3 == 0:
+                rc.vshape, rc.lprior, rc.r = rng.choice([1, 2, 3, 4]), rng.choice([0, 1, 2, 3]), rng.choice([1, 2, 3])
         io, mo = self.correspond("run", [rc.line(c) for c, rc in runs.items()], keys=["err"])
         for c, rc in runs.items():
             self.dist("run:" + rc.variant())
